@@ -1166,6 +1166,10 @@ pub fn compare_all(a: &LeanString, b: &LeanString) -> Vec<u8> {
     // views
     ok &= <LeanString as AsRef<str>>::as_ref(a) == ta && <LeanString as AsRef<[u8]>>::as_ref(a) == ta.as_bytes() && <LeanString as std::borrow::Borrow<str>>::borrow(a) == ta && &**a == ta.as_str();
     ok &= String::from(a) == ta && String::from(b.clone()) == tb;
+    // a String extended with LeanStrings
+    let mut ext = String::from("x");
+    ext.extend([a.clone(), b.clone()]);
+    ok &= ext == format!("x{ta}{tb}");
     // map lookups by &str
     let mut hm: HashMap<LeanString, u8> = HashMap::new();
     hm.insert(a.clone(), 1);
